@@ -14,13 +14,6 @@ Definition pseg := (str * str * str)%type.
 Definition pad (p : pseg) : str := let '(l, n, r) := p in l ++ n ++ r.
 Definition seg_name (p : pseg) : str := let '(_, n, _) := p in n.
 
-Inductive ritem :=
-| RText (s : str)
-| RVar (w1 name w2 : str) (fm : option (str * str * fmt))
-| RComp (w1 name w2 : str) (kids : list ritem) (w0' w1' w2' : str)
-  (* `$t(` [ns `:`] seg `.` seg ... `)`, every identifier padded *)
-| RRef (ns : option pseg) (path : list pseg).
-
 Fixpoint join_dot (l : list str) : str :=
   match l with
   | [] => []
@@ -30,29 +23,141 @@ Definition keypath_text (ns : option pseg) (path : list pseg) : str :=
   (match ns with Some p => pad p ++ [c_colon] | None => [] end) ++ join_dot (map pad path).
 Definition print_ref (ns : option pseg) (path : list pseg) : str := s_fk ++ keypath_text ns path ++ [c_rp].
 
+(** what a string argument of a reference may hold: text, variables, components, argument-less
+    references (a nested argument object would need escaped quotes inside the JSON string) *)
+Inductive aitem :=
+| AText (s : str)
+| AVar (w1 name w2 : str) (fm : option (str * str * fmt))
+| AComp (w1 name w2 : str) (kids : list aitem) (w0' w1' w2' : str)
+| ARef (ns : option pseg) (path : list pseg).
+(** an argument: a JSON string (parsed again as a value) or a JSON boolean / integer *)
+Inductive rarg := RAStr (its : list aitem) | RALit (l : lit).
+
+Fixpoint aprint (a : aitem) : str :=
+  match a with
+  | AText s => s
+  | AVar w1 n w2 fm => print (SVar w1 n w2 fm)
+  | AComp w1 n w2 kids a b c => open_tag w1 n w2 ++ concat (map aprint kids) ++ close_tag a b n c
+  | ARef ns path => print_ref ns path
+  end.
+Definition aprint_list (l : list aitem) : str := concat (map aprint l).
+Fixpoint adenote (a : aitem) : piece :=
+  match a with
+  | AText s => PcText s
+  | AVar _ n _ fm => PcVar (s_var_ ++ n) (fmt_of fm)
+  | AComp _ n _ kids _ _ _ => PcComp (s_comp_ ++ n) (pc_norm (map adenote kids))
+  | ARef ns path => PcForeign (option_map seg_name ns) (map seg_name path) []
+  end.
+
+Section AItemInd.
+Variable P : aitem -> Prop.
+Hypothesis HT : forall s, P (AText s).
+Hypothesis HV : forall w1 n w2 fm, P (AVar w1 n w2 fm).
+Hypothesis HC : forall w1 n w2 kids a b c, Forall P kids -> P (AComp w1 n w2 kids a b c).
+Hypothesis HR : forall ns path, P (ARef ns path).
+Fixpoint aitem_ind2 (i : aitem) : P i :=
+  match i with
+  | AText s => HT s
+  | AVar w1 n w2 fm => HV w1 n w2 fm
+  | AComp w1 n w2 kids a b c =>
+      HC w1 n w2 kids a b c
+        ((fix go (l : list aitem) : Forall P l :=
+            match l with [] => Forall_nil P | k :: r => Forall_cons k (aitem_ind2 k) (go r) end) kids)
+  | ARef ns path => HR ns path
+  end.
+End AItemInd.
+
+Inductive ritem :=
+| RText (s : str)
+| RVar (w1 name w2 : str) (fm : option (str * str * fmt))
+| RComp (w1 name w2 : str) (kids : list ritem) (w0' w1' w2' : str)
+  (* `$t(` [ns `:`] seg `.` seg ... `)`, every identifier padded *)
+| RRef (ns : option pseg) (path : list pseg)
+  (* `$t(` key path `, {"k": "string", "n": 3, ...})`, canonical spacing in the argument object *)
+| RRefA (ns : option pseg) (path : list pseg) (args : list (str * rarg)).
+
+Fixpoint a2r (a : aitem) : ritem :=
+  match a with
+  | AText s => RText s
+  | AVar w1 n w2 fm => RVar w1 n w2 fm
+  | AComp w1 n w2 kids a b c => RComp w1 n w2 (map a2r kids) a b c
+  | ARef ns path => RRef ns path
+  end.
+
+(** the JSON object of the arguments *)
+Definition c_quote : char := 34.
+Definition value_text (a : rarg) : str :=
+  match a with
+  | RAStr its => c_quote :: aprint_list its ++ [c_quote]
+  | RALit l => lit_display l
+  end.
+Definition member_text (ka : str * str) : str := c_quote :: fst ka ++ c_quote :: c_colon :: 32 :: snd ka.
+Fixpoint members_text (l : list (str * str)) : str :=
+  match l with
+  | [] => []
+  | x :: r => match r with [] => member_text x | _ :: _ => member_text x ++ c_comma :: 32 :: members_text r end
+  end.
+Definition obj_text (l : list (str * str)) : str := c_lb :: members_text l ++ [c_rb].
+Definition args_text (args : list (str * rarg)) : list (str * str) :=
+  map (fun ka => (fst ka, value_text (snd ka))) args.
+Definition print_refa (ns : option pseg) (path : list pseg) (args : list (str * rarg)) : str :=
+  s_fk ++ keypath_text ns path ++ c_comma :: 32 :: obj_text (args_text args) ++ [c_rp].
+
 Fixpoint rprint (i : ritem) : str :=
   match i with
   | RText s => s
   | RVar w1 n w2 fm => print (SVar w1 n w2 fm)
   | RComp w1 n w2 kids a b c => open_tag w1 n w2 ++ concat (map rprint kids) ++ close_tag a b n c
   | RRef ns path => print_ref ns path
+  | RRefA ns path args => print_refa ns path args
   end.
 Definition rprint_list (l : list ritem) : str := concat (map rprint l).
 
+(** the argument map as the parser builds it: a BTreeMap keyed by the JSON key (serde), then a
+    BTreeMap keyed by the variable name `var_` ++ key *)
+Definition sorted1 {V} (l : list (str * V)) : list (str * V) :=
+  fold_left (fun m kv => map_insert (fst kv) (snd kv) m) l [].
+Definition sorted2 {V} (l : list (str * V)) : list (str * V) :=
+  fold_left (fun m kv => map_insert (s_var_ ++ fst kv) (snd kv) m) (sorted1 l) [].
+
+Definition darg (a : rarg) : list piece :=
+  match a with
+  | RAStr its => pc_norm (map adenote its)
+  | RALit l => pc_norm [PcText (lit_display l)]
+  end.
 Fixpoint rdenote (i : ritem) : piece :=
   match i with
   | RText s => PcText s
   | RVar _ n _ fm => PcVar (s_var_ ++ n) (fmt_of fm)
   | RComp _ n _ kids _ _ _ => PcComp (s_comp_ ++ n) (pc_norm (map rdenote kids))
   | RRef ns path => PcForeign (option_map seg_name ns) (map seg_name path) []
+  | RRefA ns path args =>
+      PcForeign (option_map seg_name ns) (map seg_name path) (sorted2 (map (fun ka => (fst ka, darg (snd ka))) args))
   end.
 Definition rdenote_list (l : list ritem) : list piece := pc_norm (map rdenote l).
+
+Lemma rprint_a2r : forall a, rprint (a2r a) = aprint a.
+Proof.
+  apply aitem_ind2; try reflexivity.
+  intros w1 n w2 kids a b c IH. cbn [a2r rprint aprint]. f_equal. f_equal. rewrite map_map. f_equal.
+  induction IH as [|k r Hk Hr IHr]; [reflexivity|]. cbn [map]. rewrite Hk, IHr. reflexivity.
+Qed.
+Lemma rdenote_a2r : forall a, rdenote (a2r a) = adenote a.
+Proof.
+  apply aitem_ind2; try reflexivity.
+  intros w1 n w2 kids a b c IH. cbn [a2r rdenote adenote]. f_equal. f_equal. rewrite map_map.
+  induction IH as [|k r Hk Hr IHr]; [reflexivity|]. cbn [map]. rewrite Hk, IHr. reflexivity.
+Qed.
+Lemma rprint_list_a2r l : rprint_list (map a2r l) = aprint_list l.
+Proof. unfold rprint_list, aprint_list. rewrite map_map. f_equal. apply map_ext. apply rprint_a2r. Qed.
+Lemma rdenote_list_a2r l : rdenote_list (map a2r l) = pc_norm (map adenote l).
+Proof. unfold rdenote_list. rewrite map_map. f_equal. apply map_ext. apply rdenote_a2r. Qed.
 
 Fixpoint has_ref (i : ritem) : bool :=
   match i with
   | RText _ | RVar _ _ _ _ => false
   | RComp _ _ _ kids _ _ _ => existsb has_ref kids
-  | RRef _ _ => true
+  | RRef _ _ | RRefA _ _ _ => true
   end.
 Definition has_ref_list (l : list ritem) : bool := existsb has_ref l.
 
@@ -62,6 +167,7 @@ Hypothesis HT : forall s, P (RText s).
 Hypothesis HV : forall w1 n w2 fm, P (RVar w1 n w2 fm).
 Hypothesis HC : forall w1 n w2 kids a b c, Forall P kids -> P (RComp w1 n w2 kids a b c).
 Hypothesis HR : forall ns path, P (RRef ns path).
+Hypothesis HRA : forall ns path args, P (RRefA ns path args).
 Fixpoint ritem_ind2 (i : ritem) : P i :=
   match i with
   | RText s => HT s
@@ -71,11 +177,12 @@ Fixpoint ritem_ind2 (i : ritem) : P i :=
         ((fix go (l : list ritem) : Forall P l :=
             match l with [] => Forall_nil P | k :: r => Forall_cons k (ritem_ind2 k) (go r) end) kids)
   | RRef ns path => HR ns path
+  | RRefA ns path args => HRA ns path args
   end.
 End RItemInd.
 
 Definition is_rcomp (i : ritem) : bool := match i with RComp _ _ _ _ _ _ _ => true | _ => false end.
-Definition is_rref (i : ritem) : bool := match i with RRef _ _ => true | _ => false end.
+Definition is_rref (i : ritem) : bool := match i with RRef _ _ | RRefA _ _ _ => true | _ => false end.
 Definition is_rvar (i : ritem) : bool := match i with RVar _ _ _ _ => true | _ => false end.
 Definition is_rtext (i : ritem) : bool := match i with RText _ => true | _ => false end.
 Definition is_rcr (i : ritem) : bool := is_rcomp i || is_rref i.
@@ -176,15 +283,66 @@ Notation name_wf := (name_wf idc).
 Definition seg_wf (p : pseg) : bool := let '(l, n, r) := p in wsb l && wsb r && name_wf [] n.
 Definition nonnil {A} (l : list A) : bool := match l with [] => false | _ :: _ => true end.
 
+Definition kp_wf (ns : option pseg) (path : list pseg) : bool :=
+  (match ns with Some p => seg_wf p | None => true end) && nonnil path && forallb seg_wf path.
+
+(** string arguments: what JSON lets through unescaped (no quote, backslash, control character),
+    and no '}' in their text (the brace scan of parse_foreign_key_args counts braces) *)
+Definition jsafe (c : char) : bool := negb (c =? c_quote) && negb (c =? 92) && negb (c <? 32).
+Fixpoint aitem_wfb (a : aitem) : bool :=
+  match a with
+  | AText s => forallb textch s && forallb (fun c => negb (c =? c_rb)) s
+  | AVar w1 n w2 fm => item_wfb idc (SVar w1 n w2 fm)
+  | AComp w1 n w2 kids a b c =>
+      wsb w1 && wsb w2 && wsb a && wsb b && wsb c && name_wf s_comp_ n && forallb aitem_wfb kids
+  | ARef ns path => kp_wf ns path
+  end.
+Fixpoint nodup_strs (l : list str) : bool :=
+  match l with [] => true | x :: r => negb (existsb (str_eqb x) r) && nodup_strs r end.
+(** literal arguments: booleans and the integers serde reads back as the same literal *)
+Definition lit_ok (l : lit) : bool :=
+  match l with
+  | LBool _ => true
+  | LUnsigned n => n <=? 18446744073709551615
+  | LSigned z => (z <? 0)%Z && (Z.to_N (- z) <=? 9223372036854775808)
+  | _ => false
+  end.
+Definition rarg_wfb (a : rarg) : bool :=
+  match a with
+  | RAStr its => forallb aitem_wfb its && forallb jsafe (aprint_list its)
+  | RALit l => lit_ok l
+  end.
+Definition arg_wfb (ka : str * rarg) : bool := name_wf s_var_ (fst ka) && rarg_wfb (snd ka).
+Definition args_wfb (args : list (str * rarg)) : bool :=
+  nonnil args && nodup_strs (map fst args) && forallb arg_wfb args.
+
 Fixpoint ritem_wfb (i : ritem) : bool :=
   match i with
   | RText s => forallb textch s
   | RVar w1 n w2 fm => item_wfb idc (SVar w1 n w2 fm)
   | RComp w1 n w2 kids a b c =>
       wsb w1 && wsb w2 && wsb a && wsb b && wsb c && name_wf s_comp_ n && forallb ritem_wfb kids
-  | RRef ns path => (match ns with Some p => seg_wf p | None => true end) && nonnil path && forallb seg_wf path
+  | RRef ns path => kp_wf ns path
+  | RRefA ns path args => kp_wf ns path && args_wfb args
   end.
 Definition ritems_wfb (l : list ritem) : bool := forallb ritem_wfb l.
+
+Lemma aitem_wfb_a2r : forall a, aitem_wfb a = true -> ritem_wfb (a2r a) = true.
+Proof.
+  apply (aitem_ind2 (fun a => aitem_wfb a = true -> ritem_wfb (a2r a) = true)).
+  - intros s H. cbn [aitem_wfb a2r ritem_wfb] in *. apply andb_true_iff in H as [H _]. exact H.
+  - intros w1 n w2 fm H. exact H.
+  - intros w1 n w2 kids a b c IH H. cbn [aitem_wfb a2r ritem_wfb] in *.
+    apply andb_true_iff in H as [H Hk]. rewrite H. cbn [andb].
+    rewrite forallb_forall in Hk |- *. intros i Hi. apply in_map_iff in Hi as (x & <- & Hx).
+    rewrite Forall_forall in IH. apply IH; [exact Hx | apply Hk; exact Hx].
+  - intros ns path H. exact H.
+Qed.
+Lemma aitems_wfb_a2r l : forallb aitem_wfb l = true -> ritems_wfb (map a2r l) = true.
+Proof.
+  unfold ritems_wfb. intros H. rewrite forallb_forall in H |- *. intros i Hi.
+  apply in_map_iff in Hi as (a & <- & Ha). apply aitem_wfb_a2r. apply H. exact Ha.
+Qed.
 
 Lemma ritems_wfb_split a y b : ritems_wfb (a ++ y :: b) = true ->
   ritems_wfb a = true /\ ritem_wfb y = true /\ ritems_wfb b = true.
@@ -216,14 +374,14 @@ Proof.
   apply pad_no_char; [apply H; exact Hp | exact Hw | exact Hn].
 Qed.
 
-Lemma ref_wf_parts ns path : ritem_wfb (RRef ns path) = true ->
+Lemma ref_wf_parts ns path : kp_wf ns path = true ->
   (match ns with Some p => seg_wf p = true | None => True end) /\ path <> [] /\ forallb seg_wf path = true.
 Proof.
-  cbn [ritem_wfb]. intros H. apply andb_true_iff in H as [H H3]. apply andb_true_iff in H as [H1 H2].
+  unfold kp_wf. intros H. apply andb_true_iff in H as [H H3]. apply andb_true_iff in H as [H1 H2].
   repeat split; [destruct ns; [exact H1 | exact I] | destruct path; [discriminate H2 | discriminate] | exact H3].
 Qed.
 
-Lemma keypath_no_char c ns path : ritem_wfb (RRef ns path) = true ->
+Lemma keypath_no_char c ns path : kp_wf ns path = true ->
   is_ws c = false -> namech c = false -> c <> c_dot -> c <> c_colon -> no_char c (keypath_text ns path).
 Proof.
   intros H Hw Hn Hd Hc. destruct (ref_wf_parts _ _ H) as (Hns & _ & Hp). unfold keypath_text.
@@ -232,7 +390,7 @@ Proof.
     apply no_char_app; [apply pad_no_char; assumption|]. apply no_char_cons; [intro E; apply Hc; symmetry; exact E | apply no_char_nil].
   - apply no_char_join; [exact Hd | apply pads_no_char; assumption].
 Qed.
-Lemma ref_no_char c ns path : ritem_wfb (RRef ns path) = true ->
+Lemma ref_no_char c ns path : kp_wf ns path = true ->
   is_ws c = false -> namech c = false -> c <> c_dot -> c <> c_colon ->
   c <> c_dollar -> c <> c_t -> c <> c_lp -> c <> c_rp -> no_char c (print_ref ns path).
 Proof.
@@ -244,19 +402,28 @@ Proof.
   apply no_char_cons; [intro E; apply H4; symmetry; exact E | apply no_char_nil].
 Qed.
 
-(** items that are not components print without '<' *)
-Lemma rnoncomp_no_lt i : ritem_wfb i = true -> is_rcomp i = false -> no_char c_lt (rprint i).
+Lemma arg_wf_parts ka : arg_wfb ka = true -> name_wf s_var_ (fst ka) = true /\ rarg_wfb (snd ka) = true.
+Proof. unfold arg_wfb. intros H. apply andb_true_iff in H as [H1 H2]. auto. Qed.
+Lemma args_wf_parts args : args_wfb args = true ->
+  args <> [] /\ nodup_strs (map fst args) = true /\ forallb arg_wfb args = true.
 Proof.
-  destruct i as [s|w1 n w2 fm| |ns path]; intros H Hc; [| |discriminate|].
+  unfold args_wfb. intros H. apply andb_true_iff in H as [H H3]. apply andb_true_iff in H as [H1 H2].
+  repeat split; [destruct args; [discriminate H1 | discriminate] | exact H2 | exact H3].
+Qed.
+
+(** text, variables and argument-less references print without '<' *)
+Definition is_tvr (i : ritem) : bool := match i with RText _ | RVar _ _ _ _ | RRef _ _ => true | _ => false end.
+Lemma rnoncomp_no_lt i : ritem_wfb i = true -> is_tvr i = true -> no_char c_lt (rprint i).
+Proof.
+  destruct i as [s|w1 n w2 fm| |ns path|ns path args]; intros H Hc; try discriminate.
   - cbn [ritem_wfb rprint] in *. eapply forallb_no_char; [exact H | reflexivity].
   - cbn [ritem_wfb rprint] in *. apply (var_no_char idc); try reflexivity; try (intro E; vm_compute in E; discriminate); exact H.
   - cbn [rprint]. apply ref_no_char; try reflexivity; try (intro E; vm_compute in E; discriminate); exact H.
 Qed.
-Lemma rnoncomps_no_lt l : ritems_wfb l = true -> forallb (fun x => negb (is_rcomp x)) l = true -> no_char c_lt (rprint_list l).
+Lemma rnoncomps_no_lt l : ritems_wfb l = true -> forallb is_tvr l = true -> no_char c_lt (rprint_list l).
 Proof.
   intros H Hc. unfold rprint_list. apply no_char_concat. apply Forall_map. apply Forall_forall. intros i Hi.
-  unfold ritems_wfb in H. rewrite forallb_forall in H, Hc. apply rnoncomp_no_lt; [apply H; exact Hi|].
-  specialize (Hc i Hi). destruct (is_rcomp i); [discriminate | reflexivity].
+  unfold ritems_wfb in H. rewrite forallb_forall in H, Hc. apply rnoncomp_no_lt; [apply H; exact Hi | apply Hc; exact Hi].
 Qed.
 
 (** text and variables print without '$' *)
@@ -264,7 +431,7 @@ Lemma rtv_no_dollar l : ritems_wfb l = true -> forallb (fun x => negb (is_rcr x)
 Proof.
   intros H Hc. unfold rprint_list. apply no_char_concat. apply Forall_map. apply Forall_forall. intros i Hi.
   unfold ritems_wfb in H. rewrite forallb_forall in H, Hc. specialize (H i Hi). specialize (Hc i Hi).
-  destruct i as [s|w1 n w2 fm| |]; try discriminate.
+  destruct i as [s|w1 n w2 fm| | |]; try discriminate.
   - cbn [ritem_wfb rprint] in *. eapply forallb_no_char; [exact H | reflexivity].
   - cbn [ritem_wfb rprint] in *. apply (var_no_char idc); try reflexivity; try (intro E; vm_compute in E; discriminate); exact H.
 Qed.
@@ -275,7 +442,7 @@ Proof.
   induction l as [|x r IH]; intros H Ht; [reflexivity|].
   cbn [forallb] in Ht. apply andb_true_iff in Ht as [Hx Hr].
   unfold ritems_wfb in H. cbn [forallb] in H. apply andb_true_iff in H as [Wx Wr].
-  destruct x as [s| | |]; try discriminate. rewrite rprint_list_cons. cbn [rprint ritem_wfb] in *.
+  destruct x as [s| | | |]; try discriminate. rewrite rprint_list_cons. cbn [rprint ritem_wfb] in *.
   rewrite forallb_app, Wx. cbn [andb]. apply IH; assumption.
 Qed.
 
@@ -294,7 +461,7 @@ Proof.
   rewrite key_new_pad by exact Hp. cbn [bind]. rewrite IH by exact Hr. reflexivity.
 Qed.
 
-Lemma parse_key_path_printed ns path : ritem_wfb (RRef ns path) = true ->
+Lemma parse_key_path_printed ns path : kp_wf ns path = true ->
   parse_key_path idc (keypath_text ns path) = Ok (Some (option_map seg_name ns, map seg_name path)).
 Proof.
   intros H. destruct (ref_wf_parts _ _ H) as (Hns & Hne & Hp).
